@@ -60,6 +60,8 @@ def check(path, dist, a, b, kw):
 
 ROUTES = {
     'py.warping_path': lambda a, b, kw: dtw.warping_path(a, b, include_distance=True, **kw),
+    # the Python entry point asked for the C engine (cost matrix by the C routine, traceback in Python)
+    'py.warping_path(use_c)': lambda a, b, kw: dtw.warping_path(a, b, include_distance=True, use_c=True, **kw),
     'c.warping_path_fast': lambda a, b, kw: dtw.warping_path_fast(a, b, include_distance=True, **kw),
     'py.best_path(warping_paths)': lambda a, b, kw: (lambda d, m: (dtw.best_path(m), d))(*dtw.warping_paths(a, b, **kw)),
     'py.best_path(warping_paths_fast)': lambda a, b, kw: (lambda d, m: (dtw.best_path(m), d))(*dtw.warping_paths_fast(a, b, **kw)),
